@@ -64,6 +64,32 @@ def lean_build(prop):
     return rc == 0, out
 
 
+def import_closure(mods):
+    """the PS.* modules the given modules import, transitively (read from the `import` lines)"""
+    seen, todo = [], list(mods)
+    while todo:
+        m = todo.pop()
+        if m in seen:
+            continue
+        fn = os.path.join(LEAN, *m.split(".")) + ".lean"
+        if not os.path.exists(fn):
+            continue
+        seen.append(m)
+        for ln in open(fn):
+            mo = re.match(r"\s*import\s+(PS(?:\.[A-Za-z0-9_]+)*)\s*$", ln)
+            if mo:
+                todo.append(mo.group(1))
+    return sorted(seen)
+
+
+def lean_recheck(prop):
+    """thorough tier: the toolchain's independent re-checker replays every declaration of the property's theorem
+    modules and of every PS module they import into a fresh kernel environment"""
+    mods = import_closure([f"PS.Theorems.{m}" for m in modules_of(prop)])
+    rc, out = sh("lake env leanchecker " + " ".join(mods), cwd=LEAN, timeout=3000)
+    return rc == 0, mods, out[-800:]
+
+
 def lean_audit(prop, theorems):
     """#print axioms for every property theorem + forbidden-token scan of the sources"""
     problems = []
@@ -193,6 +219,12 @@ def main():
         rep.oblige(not [p for p in problems if "forbidden" in p], "no sorry/admit/axiom/native_decide in sources")
         for p in problems:
             rep.notes.append(p)
+        if a.tier == "thorough" and ok:
+            okc, mods, outc = lean_recheck(a.prop)
+            rep.oblige(okc, f"leanchecker re-check of {len(mods)} modules")
+            rep.extra["leanchecker_modules"] = mods
+            if not okc:
+                rep.notes.append(outc)
         # (2) correspondence + search
         props.run_channels(a.prop, rep)
         # (3) known findings
